@@ -302,21 +302,29 @@ def optAdd (a b : Option Int) : Option Int :=
   | some x, some y => some (x + y)
   | _, _ => none
 
+/-- `dist[u][v] = min(dist[u][v], w)` -/
+def fwPut (m : Mat) (u v : Nat) (w : Int) : Mat :=
+  match m.get u v with
+  | none => m.set u v (some w)
+  | some x => if w < x then m.set u v (some w) else m
+
+/-- the edge list with every edge also reversed (`directed=False`) -/
+def symE (E : List (Edge Int)) : List (Edge Int) := E.flatMap fun e => [e, (e.2.1, e.1, e.2.2)]
+
 def fwInit (n : Nat) (E : List (Edge Int)) (directed : Bool) : Mat :=
   let m0 : Mat := (List.range n).map fun i => (List.range n).map fun j => if i = j then some 0 else none
   E.foldl (fun m e =>
-    let put (m : Mat) (u v : Nat) : Mat :=
-      match m.get u v with
-      | none => m.set u v (some e.2.2)
-      | some x => if e.2.2 < x then m.set u v (some e.2.2) else m
-    let m := put m e.1 e.2.1
-    if directed then m else put m e.2.1 e.1) m0
+    let m := fwPut m e.1 e.2.1 e.2.2
+    if directed then m else fwPut m e.2.1 e.1 e.2.2) m0
+
+/-- `if dist[i][k] + dist[k][j] < dist[i][j]: dist[i][j] = dist[i][k] + dist[k][j]` -/
+def fwRelax (m : Mat) (k i j : Nat) : Mat :=
+  if optAddLt (m.get i k) (m.get k j) (m.get i j) then m.set i j (optAdd (m.get i k) (m.get k j)) else m
 
 def fwLoop (n : Nat) (m : Mat) : Mat :=
   (List.range n).foldl (fun m k =>
     (List.range n).foldl (fun m i =>
-      (List.range n).foldl (fun m j =>
-        if optAddLt (m.get i k) (m.get k j) (m.get i j) then m.set i j (optAdd (m.get i k) (m.get k j)) else m) m) m) m
+      (List.range n).foldl (fun m j => fwRelax m k i j) m) m) m
 
 structure FWRes where
   status : Status
